@@ -139,7 +139,22 @@ def _remove(fn, stmt):
             return
 
 
-def unhoist_function(fn, ref_fn):
+def _rebound_elsewhere(tree):
+    """Attributes of self that some method other than the constructor (re)binds: `self.x = ...` outside __init__.  A local
+    that captured such an attribute is not the attribute (a call in between may have rebound it) - the stale-copy defect is
+    exactly a hoisted `base = self._base`; such locals are never written out."""
+    out = set()
+    for st in tree.body:
+        if isinstance(st, ast.ClassDef):
+            for m in st.body:
+                if isinstance(m, ast.FunctionDef) and m.name not in ("__init__", "__new__"):
+                    for n in ast.walk(m):
+                        if isinstance(n, ast.Attribute) and isinstance(n.ctx, ast.Store) and isinstance(n.value, ast.Name) and n.value.id == "self":
+                            out.add(n.attr)
+    return out
+
+
+def unhoist_function(fn, ref_fn, rebound=frozenset()):
     """Returns the number of locals written out."""
     ref_locals = set(_stored(ref_fn)) | _params(ref_fn)
     done = 0
@@ -199,6 +214,24 @@ def unhoist_function(fn, ref_fn):
                 # the value starts from (`self._x = ...`: an alias of the attribute itself would keep the old object) and, for a
                 # value that reads *into* a table (`self._t[k]`, `self._t[k] + 1`), any store into that table
                 alias_of_attr = isinstance(val, ast.Attribute)
+                if any(isinstance(x, ast.Attribute) and isinstance(x.value, ast.Name) and x.value.id == "self" and x.attr in rebound
+                       for x in ast.walk(val)):
+                    # another method rebinds this attribute: the local may be a deliberate (or defective) snapshot - it stays,
+                    # unless binding and every use sit in one straight run of simple statements (nothing can run in between)
+                    same_run = False
+                    for owner_, fld_, blk_ in _blocks(fn):
+                        if any(s_ is n for s_ in blk_):
+                            i_ = [k for k, s_ in enumerate(blk_) if s_ is n][0]
+                            j_ = i_ + 1
+                            seen = 0
+                            while j_ < len(blk_) and isinstance(blk_[j_], (ast.Assign, ast.AugAssign, ast.Return, ast.Expr)) \
+                                    and not any(isinstance(c_, ast.Call) and not (isinstance(c_.func, ast.Name) and c_.func.id in _PURE_BUILTINS)
+                                                for c_ in ast.walk(blk_[j_])):
+                                seen += sum(1 for u in loads if any(u is y for y in ast.walk(blk_[j_])))
+                                j_ += 1
+                            same_run = seen == len(loads)
+                    if not same_run:
+                        ok = False
                 bases = set()
                 for x in ast.walk(val):
                     if isinstance(x, ast.Attribute):
@@ -288,9 +321,10 @@ def unhoist(cur_trees, ref_trees):
         if ct is None:
             continue
         rf, cf = _functions(rt), _functions(ct)
+        rebound = _rebound_elsewhere(ct)
         for key, fn in cf.items():
             if key in rf:
-                k = unhoist_function(fn, rf[key])
+                k = unhoist_function(fn, rf[key], rebound)
                 if k:
                     total.append("%s:%s%s (%d)" % (m, key[0] + "." if key[0] else "", key[1], k))
     return total
